@@ -327,17 +327,23 @@ func genValidateShape(b *strings.Builder, repo string) error {
 	if err != nil {
 		return err
 	}
+	// the checks of the function in source order: package-qualified calls (log.* left out), len(..) and
+	// lookups in tms.TileMatrices
 	var calls []string
 	ast.Inspect(fd.Body, func(n ast.Node) bool {
-		if ce, ok := n.(*ast.CallExpr); ok {
-			nm := exprName(ce.Fun)
-			if strings.HasPrefix(nm, "pointindex.") || strings.HasPrefix(nm, "slices.") || strings.HasPrefix(nm, "tms20.") {
+		switch x := n.(type) {
+		case *ast.CallExpr:
+			nm := exprName(x.Fun)
+			if strings.HasPrefix(nm, "pointindex.") || strings.HasPrefix(nm, "slices.") || strings.HasPrefix(nm, "tms20.") ||
+				strings.HasPrefix(nm, "errors.") || strings.HasPrefix(nm, "fmt.") || nm == "len" || nm == "panic" {
 				calls = append(calls, coqString(nm))
 			}
+		case *ast.IndexExpr:
+			calls = append(calls, coqString("index "+exprName(x.X)))
 		}
 		return true
 	})
-	fmt.Fprintf(b, "(* main.go validateTileMatrixSet: calls into pointindex/slices/tms20, in source order *)\nDefinition gen_validate_calls : list string :=\n [%s].\n\n", strings.Join(calls, "; "))
+	fmt.Fprintf(b, "(* main.go validateTileMatrixSet: its checks in source order -- calls into pointindex/slices/tms20/errors/fmt, len, map lookups *)\nDefinition gen_validate_calls : list string :=\n [%s].\n\n", strings.Join(calls, "; "))
 
 	fq, err := findFunc(filepath.Join(repo, "pointindex", "pointindex.go"), "IsQuadTree")
 	if err != nil {
